@@ -145,10 +145,13 @@ theorem atomEqW_sound {o : Ops R} (env : Nat → R) {peq : E → E → Bool}
     · rename_i f a1 a2 g b1 b2
       simp only [Bool.and_eq_true] at h
       simp only [E.eval, eq_of_beq h.1.1, hp _ _ h.1.2, hp _ _ h.2]
-    · rename_i a1 a2 b1 b2
-      simp only [Bool.and_eq_true] at h
-      simp only [E.eval, hp _ _ h.1, hp _ _ h.2]
-    · simp at h
+    all_goals first
+      | (rename_i a1 a2 b1 b2
+         simp only [Bool.and_eq_true] at h
+         simp only [E.eval, hp _ _ h.1, hp _ _ h.2])
+      | (rename_i a b
+         simp only [E.eval, hp _ _ h])
+      | simp at h
 
 theorem polyEqN_sound {o : Ops R} (ho : RingLike o) (env : Nat → R) (n : Nat) :
     ∀ a b, polyEqN n a b = true → a.eval o env = b.eval o env := by
